@@ -66,7 +66,7 @@ func genCfg(t *rapid.T, label string) cfg {
 		q := int32(rapid.IntRange(1000, 100000).Draw(t, label+".qps"))
 		return cfg{Kind: "tb", M: q, Burst: q}
 	default:
-		return cfg{Kind: "mif", M: int32(rapid.IntRange(1, 4).Draw(t, label+".M"))}
+		return cfg{Kind: "mif", M: int32(rapid.IntRange(0, 4).Draw(t, label+".M"))} // 0 is a valid limit: it closes the schema
 	}
 }
 
@@ -122,7 +122,7 @@ func (w *world) close() {
 
 // TestPropReconfigurationHistories: acquire / release / reconfigure histories against the ledger.
 func TestPropReconfigurationHistories(t *testing.T) {
-	sub := stats.NewSub("reconfiguration-histories", "rapid state machine on two real UpstreamLimiters x two schemas: ops acquire (GetOrDefault+TryAcquire), release (of any outstanding request, exactly once), reconfigure one schema (max-in-flight M in 1..4, token bucket, exempt, delete, re-add), drain (release everything, then probe); oracle: an admission under a max-in-flight schema happens only while fewer than M requests of the current incarnation are unfinished; after a drain exactly M probes are admitted and the (M+1)-th is refused; other schemas / the other cluster never influence the answer; non-trivial = a reconfiguration happens while requests are in flight and a later acquire is decided; distinct by FNV-64 of the op trace")
+	sub := stats.NewSub("reconfiguration-histories", "rapid state machine on two real UpstreamLimiters x two schemas: ops acquire (GetOrDefault+TryAcquire), release (of any outstanding request, exactly once), reconfigure one schema (max-in-flight M in 0..4, token bucket, exempt, delete, re-add), drain (release everything, then probe); oracle: an admission under a max-in-flight schema happens only while fewer than M requests of the current incarnation are unfinished; after a drain exactly M probes are admitted and the (M+1)-th is refused; other schemas / the other cluster never influence the answer; non-trivial = a reconfiguration happens while requests are in flight and a later acquire is decided; distinct by FNV-64 of the op trace")
 	stats.Check(t, stats.N(15000, 100000), func(t *rapid.T) {
 		w := &world{limiters: map[string]flowcontrols.UpstreamLimiter{}, cancel: map[string]context.CancelFunc{}, model: map[string]*schemaModel{}}
 		for _, c := range clusters {
